@@ -119,20 +119,48 @@ let () =
               List (List.map (fun (k, _) -> sn k) (B.assoc_of (List.map (fun k -> (n_ k, ())) (list_ ks))))) l)
       | _ -> raise (Shape "assockeys args"))
 
+let of_alltables (t : Extracted.Dfa.alltables) : t =
+  let module D = Extracted.Dfa in
+  List [Atom "alltables";
+        List (Atom "commands" :: List.map ss t.D.a_commands);
+        List (Atom "states" :: List.map sn t.D.a_states);
+        List [Atom "main"; Dfa_io.of_tables t.D.a_main];
+        List (Atom "subtrans" :: List.map Dfa_io.of_row t.D.a_subtrans);
+        List [Atom "csub"; Dfa_io.of_levels t.D.a_csub];
+        List (Atom "subwords" :: List.map (fun ((p, i), tb) -> List [sn p; sn i; Dfa_io.of_tables tb]) t.D.a_subwords)]
+
 (* chaintables ("lit"...) ipre "next" -> (alltables ...) in cg-dump's format (without needs / shapehash) *)
 let () =
   register "chaintables" (fun v ->
       match v with
       | List [List lits; ipre; next] ->
-          let t = Extracted.ChainTables.chain_alltables (List.map (fun s -> cl (string_ s)) lits) (n_ ipre) (cl (string_ next)) in
-          let module D = Extracted.Dfa in
-          List [Atom "alltables";
-                List (Atom "commands" :: List.map ss t.D.a_commands);
-                List (Atom "states" :: List.map sn t.D.a_states);
-                List [Atom "main"; Dfa_io.of_tables t.D.a_main];
-                List (Atom "subtrans" :: List.map Dfa_io.of_row t.D.a_subtrans);
-                List [Atom "csub"; Dfa_io.of_levels t.D.a_csub];
-                List (Atom "subwords" :: List.map (fun ((p, i), tb) -> List [sn p; sn i; Dfa_io.of_tables tb]) t.D.a_subwords)]
+          of_alltables (Extracted.ChainTables.chain_alltables (List.map (fun s -> cl (string_ s)) lits) (n_ ipre) (cl (string_ next)))
       | _ -> raise (Shape "chaintables args"))
+
+(* c17witness w1|w2 -> the witness tables of Props/C17.v *)
+let () =
+  register "c17witness" (fun v ->
+      match v with
+      | List [Atom "w1"] -> of_alltables Extracted.C17Witness.w1
+      | List [Atom "w2"] -> of_alltables Extracted.C17Witness.w2
+      | _ -> raise (Shape "c17witness args"))
+
+(* specrun <start> <alltables> (queries (q ...)...) -> ((ok rc (reply ..) (log ..) esc) | (err ..) ...)   Spec/Invocations.v *)
+let () =
+  register "specrun" (fun v ->
+      match v with
+      | List [start; tabs; List (Atom "queries" :: qs)] ->
+          let start = n_ start in
+          let tabs = Dfa_io.alltables_of tabs in
+          List (List.map (fun q ->
+              match q with
+              | List [Atom "q"; wb; ic; outs; List (Atom "words" :: ws); p] ->
+                  let e = { B.e_wordbreaks = cl (string_ wb); e_outputs = outputs_of outs; e_ignore_case = bool_of ic } in
+                  let r = Extracted.Invocations.spec_run start tabs e (List.map (fun w -> cl (string_ w)) ws) (cl (string_ p)) in
+                  outcome (fun (r, esc) ->
+                      List [Atom "ok"; sn r.B.r_rc; List (Atom "reply" :: List.map ss r.B.r_reply); of_log r.B.r_log;
+                            Atom (if esc then "1" else "0")]) r
+              | q -> raise (Shape ("query: " ^ to_string q))) qs)
+      | _ -> raise (Shape "specrun args"))
 
 let linked = ()
